@@ -177,15 +177,38 @@ def fault_stir(ctx):
                   lambda: _mo.write_Track(os.path.join(d or "/nonexistent", "x.mid"), broken_track())]
     except Exception:
         pass
+    try:
+        # arguments of one function handed to its siblings (a note where a shorthand belongs, a shorthand where a note belongs,
+        # a key where a note belongs): refused or answered, what matters is what such a call leaves behind; and after a valid
+        # call in one key, an unknown key asked for twice in a row
+        from mingus.core import intervals as _iv, chords as _ch, progressions as _pg
+        for (a_, b_) in (("C", "E"), ("C", "G"), ("E", "G#"), ("B", "F#"), ("Db", "Ab"), ("A", "C"), ("G", "b3"), ("F#", "5")):
+            calls += [lambda a_=a_, b_=b_: _iv.from_shorthand(a_, b_), lambda a_=a_, b_=b_: _iv.from_shorthand(a_, b_, False),
+                      lambda a_=a_, b_=b_: _iv.determine(b_, a_), lambda a_=a_, b_=b_: _iv.measure(a_, b_),
+                      lambda a_=a_, b_=b_: _ch.triad(a_, b_), lambda a_=a_, b_=b_: _iv.third(b_, a_),
+                      lambda a_=a_, b_=b_: _pg.to_chords(a_, b_)]
+        calls += [lambda: _iv.third("E", "A"), lambda: _iv.second("D", "H"), lambda: _iv.fourth("D", "H"), lambda: _iv.third("E", "A"),
+                  lambda: _iv.interval("Q", "D", 2), lambda: _iv.interval("Q", "D", 3)]
+    except Exception:
+        pass
     refused = 0
-    for c in calls:
-        try:
-            c()
-        except BaseException as e:
-            if isinstance(e, (KeyboardInterrupt, SystemExit)):
-                raise
+    flipped = []
+    for k, c in enumerate(calls):
+        outcome = []
+        for _twice in (0, 1):
+            try:
+                c()
+                outcome.append(None)
+            except BaseException as e:
+                if isinstance(e, (KeyboardInterrupt, SystemExit)):
+                    raise
+                outcome.append(type(e).__name__)
+        if outcome[0] is not None:
             refused += 1
+            if outcome[1] is None:
+                flipped.append({"call_number": k, "first": outcome[0], "second": "returned normally"})
         n += 1
+    ctx.extra["fault_prelude_flipped"] = flipped
     if d:
         import shutil
         shutil.rmtree(d, ignore_errors=True)
